@@ -61,6 +61,11 @@ def hygiene(loop, conn, owner):
     closed = conn._transport is None
     if closed and owner is not None and owner.lost != 1:
         v.append(('owner-not-notified', 'connection closed, owner.connection_lost called %d times' % owner.lost))
+    exc = getattr(owner, 'lost_exc', None)
+    if exc is not None and not isinstance(exc, (asyncssh.Error, OSError, asyncssh.packet.PacketDecodeError)):
+        # the connection was torn down through the catch-all for unexpected exceptions: the input did not get
+        # the documented error but crashed a handler
+        v.append(('handler-crashed', 'connection ended by the internal-error path: %r' % (exc,)))
     return v
 
 
@@ -168,6 +173,19 @@ def srv_scripts():
         'auth-kbdint': ('auth', [], by(50) + s('user') + s('ssh-connection') + s('keyboard-interactive') + s('') + s(''), []),
         'auth-kbdint-resp': ('auth', [by(50) + s('user') + s('ssh-connection') + s('keyboard-interactive') + s('') + s('')],
                              by(61) + u32(1) + s('pw'), []),
+        'auth-kbdint-resp0': ('auth', [by(50) + s('user') + s('ssh-connection') + s('keyboard-interactive') + s('') + s('')],
+                              by(61) + u32(0), []),
+        'auth-kbdint-resp2': ('auth', [by(50) + s('user') + s('ssh-connection') + s('keyboard-interactive') + s('') + s('')],
+                              by(61) + u32(2) + s('pw') + s('x'), []),
+        # a server that offers only password authentication: asyncssh itself presents it as a one-prompt
+        # keyboard-interactive exchange
+        'pwfb-kbdint': ('auth', [], by(50) + s('user') + s('ssh-connection') + s('keyboard-interactive') + s('') + s(''), []),
+        'pwfb-kbdint-resp': ('auth', [by(50) + s('user') + s('ssh-connection') + s('keyboard-interactive') + s('') + s('')],
+                             by(61) + u32(1) + s('pw'), []),
+        'pwfb-kbdint-resp0': ('auth', [by(50) + s('user') + s('ssh-connection') + s('keyboard-interactive') + s('') + s('')],
+                              by(61) + u32(0), []),
+        'pwfb-kbdint-resp2': ('auth', [by(50) + s('user') + s('ssh-connection') + s('keyboard-interactive') + s('') + s('')],
+                              by(61) + u32(2) + s('pw') + s('x'), []),
         'auth-hostbased': ('auth', [], by(50) + s('user') + s('ssh-connection') + s('hostbased') + s('ssh-ed25519') + s(s('ssh-ed25519') + s(bytes(32))) + s('host') + s('user') + s(s('ssh-ed25519') + s(bytes(64))), []),
         'open-session': ('session', [], opn, [exec_]),
         'open-direct-tcpip': ('session', [], by(90) + s('direct-tcpip') + u32(5) + u32(1000) + u32(100) + s('h') + u32(80) + s('o') + u32(1), []),
@@ -216,7 +234,7 @@ def srv_run(name, mutated, kexinit_mut=None, version=b'SSH-2.0-RefPeer_1.0', com
         except OSError:
             pass
     env['session_factory'] = lambda: P.RecSession('srv', on_start=on_start)
-    w = H.SrvWorld(env=env, server_factory=BudgetSrv,
+    w = H.SrvWorld(env=env, server_factory=P.RecServer if name.startswith('pwfb-') else BudgetSrv,
                    sopts=dict(compression_algs=[comp], x11_forwarding=True, agent_forwarding=True),
                    rp_kw=dict(version=version, comps=[comp]))
     w.loop.write_budget = 1500
